@@ -55,6 +55,7 @@ func RunCtx(seed int64, idx int) *Result {
 	// what parks: the leader's proposal request (mode 0), the validation of a view-0 proposal (1), the validation of the
 	// fresh block of a NEW_VIEW for the view the node already timed out into (2)
 	mode := []int{0, 0, 1, 2}[rng.Intn(4)]
+	H := uint64(1 + rng.Intn(3)) // the height everything happens at (above 1: the node gets there by a sync of block H-1)
 	parkRequest := mode == 0 && rng.Intn(4) > 0
 	parkValidate := mode != 0 || rng.Intn(2) == 0
 	nd.BU.OnRequest = func(ctx context.Context, h uint64) {
@@ -102,8 +103,13 @@ func RunCtx(seed int64, idx int) *Result {
 		cancel3()
 		return net.result("ctx", idx, seed, desc)
 	}
+	nd.BU.NilOnCancel = rng.Intn(2) == 0 // a block factory that gives up (returns no block) when its context is cancelled
 	nd.Start()
-	nd.ML.UpdateState(nd.ctx, nil, nil)
+	if H == 1 {
+		nd.ML.UpdateState(nd.ctx, nil, nil)
+	} else {
+		nd.ML.UpdateState(nd.ctx, &spi.Blk{H: H - 1, Body: "synced"}, nil)
+	}
 	if nd.Witness(8) < 8 {
 		net.count("inconclusive: worker iterations not witnessed")
 		return net.result("ctx", idx, seed, desc)
@@ -147,7 +153,7 @@ func RunCtx(seed int64, idx int) *Result {
 		reach = pv
 	}
 	for v := uint64(0); v < reach; v++ {
-		fire(1, v)
+		fire(H, v)
 		nd.Barrier()
 		nd.Witness(4)
 	}
@@ -163,7 +169,7 @@ func RunCtx(seed int64, idx int) *Result {
 			if other.Id == nd.Id {
 				continue
 			}
-			nd.ML.HandleConsensusMessage(nd.ctx, factory(other.Id).CreateViewChangeMessage(1, primitives.View(me), nil).ToConsensusRawMessage())
+			nd.ML.HandleConsensusMessage(nd.ctx, factory(other.Id).CreateViewChangeMessage(primitives.BlockHeight(H), primitives.View(me), nil).ToConsensusRawMessage())
 		}
 		if !waitCap(1) {
 			net.count("inconclusive: no SPI call captured")
@@ -173,8 +179,8 @@ func RunCtx(seed int64, idx int) *Result {
 		c = lastCap()
 	} else if mode == 1 {
 		// the proposal of view 0's leader: the node parks inside ValidateBlockProposal at (1, 0)
-		blk := &spi.Blk{H: 1, Body: "proposal-of-view-0"}
-		nd.ML.HandleConsensusMessage(nd.ctx, factory(net.Nodes[0].Id).CreatePreprepareMessage(1, 0, blk, spi.HashOf(blk)).ToConsensusRawMessage())
+		blk := &spi.Blk{H: H, Body: "proposal-of-view-0"}
+		nd.ML.HandleConsensusMessage(nd.ctx, factory(net.Nodes[0].Id).CreatePreprepareMessage(primitives.BlockHeight(H), 0, blk, spi.HashOf(blk)).ToConsensusRawMessage())
 		if !waitCap(1) {
 			net.count("inconclusive: no SPI call captured")
 			nd.Cancel()
@@ -191,15 +197,15 @@ func RunCtx(seed int64, idx int) *Result {
 			if other.Id == nd.Id {
 				continue
 			}
-			vt := &ref.Vote{Type: ref.VC, Inst: uint64(spi.InstanceId), H: 1, V: pv}
-			vt.Sender = ref.Sig{Id: other.Id, Sig: net.Keys.SignCM(other.Id, 1, vt.HeaderBytes())}
+			vt := &ref.Vote{Type: ref.VC, Inst: uint64(spi.InstanceId), H: H, V: pv}
+			vt.Sender = ref.Sig{Id: other.Id, Sig: net.Keys.SignCM(other.Id, H, vt.HeaderBytes())}
 			votes = append(votes, vt)
 		}
-		blk := &spi.Blk{H: 1, Body: "fresh-block-of-the-new-view"}
-		emb := &ref.Ref{Type: ref.PP, Inst: uint64(spi.InstanceId), H: 1, V: pv, Hash: spi.HashOf(blk)}
-		embSig := &ref.Sig{Id: leader, Sig: net.Keys.SignCM(leader, 1, emb.Bytes())}
-		sg := ref.Sig{Id: leader, Sig: net.Keys.SignCM(leader, 1, ref.NVHeaderBytes(ref.NV, uint64(spi.InstanceId), 1, pv, votes))}
-		nd.ML.HandleConsensusMessage(nd.ctx, ref.RawNewViewMsg(ref.NV, uint64(spi.InstanceId), 1, pv, votes, sg, emb, embSig, blk))
+		blk := &spi.Blk{H: H, Body: "fresh-block-of-the-new-view"}
+		emb := &ref.Ref{Type: ref.PP, Inst: uint64(spi.InstanceId), H: H, V: pv, Hash: spi.HashOf(blk)}
+		embSig := &ref.Sig{Id: leader, Sig: net.Keys.SignCM(leader, H, emb.Bytes())}
+		sg := ref.Sig{Id: leader, Sig: net.Keys.SignCM(leader, H, ref.NVHeaderBytes(ref.NV, uint64(spi.InstanceId), H, pv, votes))}
+		nd.ML.HandleConsensusMessage(nd.ctx, ref.RawNewViewMsg(ref.NV, uint64(spi.InstanceId), H, pv, votes, sg, emb, embSig, blk))
 		if !waitCap(1) {
 			net.count("inconclusive: no SPI call captured")
 			nd.Cancel()
@@ -212,37 +218,51 @@ func RunCtx(seed int64, idx int) *Result {
 	if c != nil {
 		net.count("C15 contexts captured")
 		if c.late {
-			net.violate("C15", "spi-call-entered-with-cancelled-context", "%s for (1,%d) was entered with an already cancelled context although nothing had told the node to leave that position", c.kind, pv)
+			net.violate("C15", "spi-call-entered-with-cancelled-context", "%s for (H,%d) was entered with an already cancelled context although nothing had told the node to leave that position", c.kind, pv)
 		}
 		// 1. a stale trigger (older view) must not cancel the current position's context
 		steps := rng.Intn(3)
 		if pv == 0 {
 			steps = 0
 		}
+		if H > 1 && rng.Intn(2) == 0 {
+			// a late trigger of the previous height (a timer goroutine that lost the race with Stop, or a commit that landed between
+			// the timer firing and the main loop reading it): an event about an older position
+			for k := 0; k < 1+rng.Intn(2); k++ {
+				fire(H-1, uint64(rng.Intn(int(pv)+3)))
+				nd.Barrier()
+				net.count("C15 stale triggers judged")
+				net.count("C15 triggers of an earlier height judged")
+				if c.ctx.Err() != nil {
+					net.violate("C15", "stale-trigger-cancelled-current-context", "an election trigger of the earlier height %d cancelled the context of the current position (%d,%d) in which %s is waiting", H-1, H, pv, c.kind)
+					break
+				}
+			}
+		}
 		for s := 0; s < steps; s++ {
 			sv := uint64(rng.Intn(int(pv)))
 			if s == 0 && reach < pv {
 				sv = reach // its own, now outdated, trigger of the view it was in when the others elected it
 			}
-			fire(1, sv)
+			fire(H, sv)
 			nd.Barrier()
 			net.count("C15 stale triggers judged")
 			if c.ctx.Err() != nil {
-				net.violate("C15", "stale-trigger-cancelled-current-context", "an election trigger for an older view of height 1 cancelled the context of the current position (1,%d) in which %s is waiting", pv, c.kind)
+				net.violate("C15", "stale-trigger-cancelled-current-context", "an election trigger for an older view of height 1 cancelled the context of the current position (H,%d) in which %s is waiting", pv, c.kind)
 				break
 			}
 		}
 		// 2. the stimulus that tells the node to leave: its own election trigger, or a sync to a higher height
 		leave := rng.Intn(2)
 		if leave == 0 {
-			fire(1, pv)
+			fire(H, pv)
 		} else {
-			nd.ML.UpdateState(nd.ctx, &spi.Blk{H: uint64(1 + rng.Intn(4)), Body: "synced"}, nil)
+			nd.ML.UpdateState(nd.ctx, &spi.Blk{H: H + uint64(rng.Intn(4)), Body: "synced"}, nil)
 		}
 		nd.Barrier()
 		net.count("C15 leave stimuli judged")
 		if c.ctx.Err() == nil {
-			net.violate("C15", "context-not-cancelled-when-told-to-leave", "%s is waiting on the context of (1,%d); after %s and a main-loop barrier the context is still live", c.kind, pv, []string{"the election trigger of that view", "a sync to a higher height"}[leave])
+			net.violate("C15", "context-not-cancelled-when-told-to-leave", "%s is waiting on the context of (H,%d); after %s and a main-loop barrier the context is still live", c.kind, pv, []string{"the election trigger of that view", "a sync to a higher height"}[leave])
 		}
 		select {
 		case <-c.done:
@@ -254,15 +274,35 @@ func RunCtx(seed int64, idx int) *Result {
 			// the trigger of the registered, current pair was offered (possibly while a stale trigger still sat in the
 			// worker's one-slot inbox): it must have been acted upon
 			net.count("C19 current triggers judged")
-			if h, v := nd.HV(); h == 1 && v <= pv {
-				net.violate("C19", "current-trigger-not-acted-upon", "the election trigger of the registered pair (1,%d) was handed to the main loop (after %d stale triggers while the worker was inside an SPI call); after 16 witnessed worker iterations the node is still in view %d", pv, steps, v)
+			if h, v := nd.HV(); h == H && v <= pv {
+				net.violate("C19", "current-trigger-not-acted-upon", "the election trigger of the registered pair (H,%d) was handed to the main loop (after %d stale triggers while the worker was inside an SPI call); after 16 witnessed worker iterations the node is still in view %d", pv, steps, v)
 			}
+		}
+		// 3a. a fresh proposal whose validation ended under a cancelled context is not adopted (no PREPARE for it)
+		if mode != 0 {
+			cancelledValidation := false
+			for _, e := range net.Log.Snapshot() {
+				if e.Kind == spi.EvValidate && e.Node == nd.Id && e.H == H && e.CtxErr {
+					cancelledValidation = true
+				}
+				if cancelledValidation && e.Kind == spi.EvSend && e.Node == nd.Id && e.Raw != nil {
+					if m, ok := ref.Decode(e.Raw); ok && m.Env == ref.EnvP && m.H == H && m.V == pv {
+						for _, p := range []string{"C07", "C15"} {
+							net.violate(p, "proposal-adopted-although-its-validation-was-cancelled", "the node was told to leave (%d,%d) while ValidateBlockProposal for that position's proposal was running; the call returned under the cancelled context, yet the node sent PREPARE for (%d,%d)", H, pv, H, pv)
+						}
+					}
+				}
+			}
+			net.count("C07 cancelled validations judged")
 		}
 		// 3. the block produced under the cancelled context must not be broadcast
 		for _, e := range net.Log.Snapshot() {
 			if e.Kind == spi.EvSend && e.Node == nd.Id && e.Raw != nil {
-				if m, ok := ref.Decode(e.Raw); ok && (m.Env == ref.EnvNV || m.Env == ref.EnvPP) && m.H == 1 && m.V == pv && mode == 0 {
-					net.violate("C15", "proposal-broadcast-after-cancelled-spi-call", "the node broadcast %s for (1,%d) with the block returned by a RequestNewBlockProposal whose context had been cancelled", m.Env, pv)
+				if m, ok := ref.Decode(e.Raw); ok && (m.Env == ref.EnvNV || m.Env == ref.EnvPP) && m.H == H && m.V == pv && mode == 0 {
+					net.violate("C15", "proposal-broadcast-after-cancelled-spi-call", "the node broadcast %s for (H,%d) with the block returned by a RequestNewBlockProposal whose context had been cancelled", m.Env, pv)
+					if m.Block == nil {
+						net.violate("C11", "correct-leader-announced-a-view-without-a-block", "the node's RequestNewBlockProposal was cancelled and returned no block; the node nevertheless broadcast %s for (%d,%d) — with no block, which no correct peer accepts", m.Env, H, pv)
+					}
 				}
 			}
 		}
